@@ -40,6 +40,9 @@ def main():
     match = ""
     if "--match" in sys.argv:
         match = sys.argv[sys.argv.index("--match") + 1]; args = [a for a in args if a != match]
+    sample = 0
+    if "--sample" in sys.argv:
+        sample = int(sys.argv[sys.argv.index("--sample") + 1]); args = [a for a in args if a != str(sample)]
     work = []
     if seeded:
         for meta in sorted(glob.glob(os.path.join(VERIF, "seeded", "*", "meta.json"))):
@@ -58,9 +61,16 @@ def main():
                 if line.startswith("# expect:"):
                     expect = line.split(":", 1)[1].strip()
             work.append((prop, patch, expect))
+    if sample and len(work) > sample:
+        # deterministic sample (VERIF_SEED): used by the thorough tier, which re-validates the check's own
+        # detection power on a few must-fail patches after the property itself was decided
+        import random
+        random.Random(int(os.environ.get("VERIF_SEED", "1") or 1)).shuffle(work)
+        work = sorted(work[:sample])
     bad = 0
     # a mutant only counts as caught if the unchanged tree passes the same check
     for prop in sorted(set(w[0] for w in work)):
+        if "--nobaseline" in sys.argv: break
         env = dict(ENV, RELIC_REPO=REPO, RELIC_OUT=tempfile.mkdtemp(prefix="relic-base-"))
         r = subprocess.run([os.path.join(VERIF, "bin", "relicvc"), "check", prop], capture_output=True, text=True, env=env, cwd=VERIF)
         shutil.rmtree(env["RELIC_OUT"], ignore_errors=True)
